@@ -1,6 +1,6 @@
 """C02 - The same query over the same data gives the same answer on every dialect."""
 import json, re
-import vlib, c01_lib as L, c01_harness as H, c01_aggr as A
+import vlib, c01_lib as L, c01_harness as H, c01_aggr as A, c01_order as O
 from vlib import Corr, Search, Failure
 
 ID = 'C02'
@@ -343,6 +343,68 @@ def replay_aggr(ctx, d):
     return aggr_failure(d['provider'], g, filt, params, d['rows'])
 
 
+# ---- ordering (Model/C01Order.v): the ordered ids under the PostgreSQL / MySQL reading of that provider's ORDER BY / WHERE AST vs the SQLite reading
+
+def order_case(prov, filt, keys, params, table):
+    ka, ca, _, _, _ = O.translate(prov, filt, keys, None, params)
+    kb, cb, _, _, _ = O.translate('sqlite', filt, keys, None, params)
+    tab = '[%s]' % '; '.join('mkenv %s PARAMS' % L.coq_rowfn(r) for r in table)
+    return '(let PARAMS := %s in let TAB := %s in %s (sql_order_rows %s %s %s (QCol 0) TAB) (sql_order_rows DSqlite %s %s (QCol 0) TAB))' % (
+        L._coq_fn(list(params.items())), tab, O.QVS_EQB, L.DN[prov], ka, ca, kb, cb)
+
+
+def order_key(prov, filt, keys, params, table):
+    for e in [filt] + [k for k, _ in keys]:
+        if e is None: continue
+        for row in table:
+            k = dialect_key(e, row, params, prov)
+            if not k.startswith('unlisted'): return k
+    if prov == 'postgres':
+        for row in table:
+            try:
+                if filt is not None and not L.keeps(filt, row, params, True): continue
+                if any(L.ref(k, row, params, True) is None for k, _ in keys): return 'order-by-null-placement-differs'
+            except L.RefError:
+                pass
+    return 'unlisted:%s:order' % prov
+
+
+def order_failure(prov, filt, keys, params, table):
+    what = '%s (documented semantics, not executed) and SQLite return different orders for %s with %s over %d rows' % (
+        prov, O.qsrc(filt, keys, None), {('x%d' % i): v for i, v in sorted(params.items())}, len(table))
+    return Failure(order_key(prov, filt, keys, params, table), what, {'order': {'provider': prov, 'filt': L.to_json(filt) if filt is not None else None,
+                   'keys': [[L.to_json(e), d] for e, d in keys], 'params': {str(i): v for i, v in params.items()}, 'rows': table}})
+
+
+def order_agreement(ctx, deep):
+    table = aggr_table(search_rows(ctx, 8))
+    queries = O.gen_queries(ctx, 40 if not deep else 400)
+    exprs, meta = [], []
+    for filt, keys, proj, params in queries:
+        if any(e is not None and zero_div(e, row, params) for e in [filt] + [k for k, _ in keys] for row in table): continue
+        for prov in ('postgres', 'mysql'):
+            try: exprs.append(order_case(prov, filt, keys, params, table)); meta.append((prov, filt, keys, params))
+            except Exception: continue
+    bad = H.run_bools(ctx, exprs, name='order', header=O.ORDER_HEADER, jobs=4)
+    failures, seen = [], {}
+    for i in bad:
+        prov, filt, keys, params = meta[i]
+        f = order_failure(prov, filt, keys, params, table)
+        seen[f.key] = seen.get(f.key, 0) + 1
+        if seen[f.key] <= 1: failures.append(f)
+    return len(exprs), failures, seen
+
+
+def replay_order(ctx, d):
+    filt = L.from_json(d['filt']) if d['filt'] is not None else None
+    keys = [(L.from_json(e), bool(s)) for e, s in d['keys']]
+    params = {int(k): v for k, v in d['params'].items()}
+    try: case = order_case(d['provider'], filt, keys, params, d['rows'])
+    except Exception: return None
+    if not H.run_bools(ctx, [case], name='replay_order', header=O.ORDER_HEADER): return None
+    return order_failure(d['provider'], filt, keys, params, d['rows'])
+
+
 def replay_slice(d):
     import props.c25 as c25
     case, n, a, b, prov = d['case'], d['n'], d['a'], d['b'], d['provider']
@@ -394,7 +456,10 @@ def search(ctx, deep):
     a_evals, a_fail, a_seen = aggr_agreement(ctx, deep)
     failures += a_fail
     dist['aggregate_agreement'] = {'evaluations': a_evals, 'disagreeing_by_key': a_seen}
-    return Search(evaluations=len(exprs) + s_evals + a_evals, failures=failures, nontrivial=len(nontriv), distribution=dist, exhaustive=False,
+    o_evals, o_fail, o_seen = order_agreement(ctx, deep)
+    failures += o_fail
+    dist['order_agreement'] = {'evaluations': o_evals, 'disagreeing_by_key': o_seen}
+    return Search(evaluations=len(exprs) + s_evals + a_evals + o_evals, failures=failures, nontrivial=len(nontriv), distribution=dist, exhaustive=False,
                   samples=[{'case': exprs[len(exprs) // 2][:500]}] if exprs else [])
 
 
@@ -414,6 +479,7 @@ def _replay_parts(data):
 def replay(ctx, data):
     if 'slice' in data: return replay_slice(data['slice'])
     if 'aggr' in data: return replay_aggr(ctx, data['aggr'])
+    if 'order' in data: return replay_order(ctx, data['order'])
     return replay_expr(ctx, data)
 
 
@@ -421,7 +487,7 @@ def replay_expr(ctx, data):
     """One stored input. The recorded findings are evaluated together in one coqc run (cached) to keep the check fast."""
     key = _payload_key(data)
     if key not in _replay_cache:
-        batch = [data] + [k['replay'] for k in vlib.known_for(ID) if k.get('replay') and 'slice' not in k['replay'] and 'aggr' not in k['replay'] and _payload_key(k['replay']) != key]
+        batch = [data] + [k['replay'] for k in vlib.known_for(ID) if k.get('replay') and 'slice' not in k['replay'] and 'aggr' not in k['replay'] and 'order' not in k['replay'] and _payload_key(k['replay']) != key]
         cases, owners = [], []
         for d in batch:
             try:
@@ -442,7 +508,8 @@ LEVEL_TEXT = ('Machine-checked proof (Coq 8.16.1) that on the C01 expression gra
               'witnesses (MySQL `/` and length(), PostgreSQL least / greatest, NOT coalesce(x, true), CASE / coalesce over boolean and integer). The translation model and a '
               'text-rendering model of the four builders are compared with the real translator / builders on every run. The agreement is also proved for queries with '
               'attribute paths through to-one references (C02_agree_join_rows) and with conditions over a to-many collection - EXISTS / IN / NOT IN / COUNT subqueries '
-              '(C02_agree_collection_rows) and for aggregates as whole-query results (C02_agree_aggregate, except PostgreSQL\'s missing sum / avg of a boolean, refuted); their '
+              '(C02_agree_collection_rows, C02_agree_collection_formula_rows, C02_agree_collection_len_rows), for GROUP BY with selected aggregates (C02_agree_group_rows), for ordering '
+              '(C02_agree_order_rows: except a None key where SQLite / MySQL and PostgreSQL sort NULL to different ends, refuted) and for aggregates as whole-query results (C02_agree_aggregate, except PostgreSQL\'s missing sum / avg of a boolean, refuted); their '
               'FROM / subquery / aggregate models are tied structurally on the four providers by check C01.')
 LEVEL_NOTE = ('Partial: nothing executes on PostgreSQL / MySQL / MariaDB / Oracle here - their semantics are documentation models (trusted); SQLite is validated against the '
               'linked library. Oracle and the JSON / array / date operators are covered at most at text level; collations are assumed binary.')
